@@ -6,6 +6,7 @@
 package caddy
 
 import (
+	"crypto/tls"
 	"fmt"
 	"net/http"
 )
@@ -63,4 +64,24 @@ func VerifSwapConfigIndex(idx map[string]string) map[string]string {
 	old := rawCfgIndex
 	rawCfgIndex = idx
 	return old
+}
+
+// VerifRunningAdminHandler returns the handler that replaceLocalAdminServer
+// (remote == false) or replaceRemoteAdminServer (remote == true) installed in
+// the admin server that is running right now, together with that server's TLS
+// configuration (nil for the local endpoint). The handler is nil when no such
+// server is running. This is the handler requests accepted by the listener
+// reach, built from the loaded config by the real code path (JSON decoding,
+// listen address parsing, public key extraction).
+func VerifRunningAdminHandler(remote bool) (http.Handler, *tls.Config) {
+	serverMu.Lock()
+	defer serverMu.Unlock()
+	srv := localAdminServer
+	if remote {
+		srv = remoteAdminServer
+	}
+	if srv == nil {
+		return nil, nil
+	}
+	return srv.Handler, srv.TLSConfig
 }
